@@ -187,7 +187,11 @@ fn one<S: Setup>(prog: &Prog, publics: &[S::E], privates: &[S::E], cfg: &PackCfg
         .map(|b| b.circuit.ops.iter().filter(|o| matches!(o, Op::Alu { .. })).count())
         .unwrap_or(0);
     let tags = shape_tags::<S>(prog, &p);
-    let mut r = match signature::<S>(prog, &p, cfg) {
+    // a program that trips the known C02 finding (select with an extension-valued selector, then
+    // decompose_ext) fails here for that reason: attribute it to that finding, not to C10's own
+    let trig = p3r_verif::prog::trigger_ext_selector_decompose::<S>(prog, &ev);
+    let sig0 = signature::<S>(prog, &p, cfg).map(|s| if trig { "c02-known/ext-selector-select-then-decompose_ext".to_string() } else { s });
+    let mut r = match sig0 {
         None => {
             if p.first_failure().is_some() {
                 let (n, st) = p.first_failure().unwrap();
@@ -196,7 +200,7 @@ fn one<S: Setup>(prog: &Prog, publics: &[S::E], privates: &[S::E], cfg: &PackCfg
                 CaseResult::held(key, n_alu >= 1)
             }
         }
-        Some(sig) if !first_time(&sig) => CaseResult::violated(
+        Some(sig) if !first_time(&sig) || trig => CaseResult::violated(
             key,
             sig,
             case_detail::<S>(prog, publics, privates, cfg, p.built.as_ref(), json!({"stages": p.stages_json()})),
